@@ -55,6 +55,9 @@ type HistIn struct {
 	// MarkIdx-th launched node (modulo their number) is marked for deletion, as the disruption controller does
 	MarkStage string `json:"markStage"`
 	MarkIdx   int    `json:"markIdx"`
+	// MarkStale: the node is marked by ONE MarkForDeletion call for a multi-candidate command whose other candidates have
+	// already left the cluster state (their provider ids come first in the call)
+	MarkStale bool `json:"markStale,omitempty"`
 }
 
 // ---------- output ----------
@@ -665,7 +668,11 @@ func implHistory(raw json.RawMessage) (any, error) {
 			if k < 0 {
 				k += len(live)
 			}
-			h.w.Cluster.MarkForDeletion("fake:///" + live[k])
+			if in.MarkStale {
+				h.w.Cluster.MarkForDeletion("fake:///gone-0", "fake:///gone-1", "fake:///"+live[k])
+			} else {
+				h.w.Cluster.MarkForDeletion("fake:///" + live[k])
+			}
 			h.marked[live[k]] = true
 		}
 		p, _ := h.pass(stage)
